@@ -1,4 +1,4 @@
-\* quick: 2 callers, every server misbehaviour, early context end, all interleavings
+\* quick: 2 callers, right and wrong answer types, duplicate/unsolicited, all interleavings
 CONSTANTS
   Callers = {1, 2}
   MaxCalls = 1
@@ -6,12 +6,12 @@ CONSTANTS
   IdMax = 4
   UnsolIds = {0}
   MaxExtra = 1
-  Kinds = {"ok", "wrong", "fault"}
+  Kinds = {"ok", "wrong"}
   WithRenew = FALSE
   Timed = FALSE
   T = 2
   MaxTime = 0
-  EarlyCancel = TRUE
+  EarlyCancel = FALSE
   NoTimeouts = FALSE
   Mode = "mc"
   SymBreak = FALSE
